@@ -1089,7 +1089,7 @@ impl CacheOp for BDDOp {
 mod simple {
 use super::*;
 broadcast use leaf_lemmas;
-//@fn file=crates/oxidd-rules-bdd/src/simple/mod.rs path=fn:terminal_bin cases=OP:BDDOp::And~as~u8,BDDOp::Or~as~u8,BDDOp::Nand~as~u8,BDDOp::Nor~as~u8,BDDOp::Xor~as~u8,BDDOp::Equiv~as~u8,BDDOp::Imp~as~u8,BDDOp::ImpStrict~as~u8 expect=R4:4 props=C02,C06
+//@fn file=crates/oxidd-rules-bdd/src/simple/mod.rs path=fn:terminal_bin cases=OP:BDDOp::And~as~u8,BDDOp::Or~as~u8,BDDOp::Nand~as~u8,BDDOp::Nor~as~u8,BDDOp::Xor~as~u8,BDDOp::Equiv~as~u8,BDDOp::Imp~as~u8,BDDOp::ImpStrict~as~u8 props=C02,C06
 //@spec
     requires is_bin(OP), edge_ok::<M::Edge>(), ok(f.view(), m.num_levels_spec()), ok(g.view(), m.num_levels_spec()),
     ensures match res {
@@ -1123,17 +1123,17 @@ impl BDDOp {
 mod apply_rec {
 use super::*;
 broadcast use {leaf_lemmas, quant_lemmas, quant2_lemmas, restrict_lemmas, subst_lemmas, pick_lemmas, count_lemmas, count_lemmas2};
-//@fn file=crates/oxidd-rules-bdd/src/simple/apply_rec.rs path=fn:apply_not nodecr expect=R5:1 props=C02,C06
+//@fn file=crates/oxidd-rules-bdd/src/simple/apply_rec.rs path=fn:apply_not nodecr props=C02,C06
 //@spec
     requires edge_ok::<M::Edge>(), ok(f.view(), manager.num_levels_spec()),
     ensures res is Ok ==> not_post(f.view(), manager.num_levels_spec(), res->Ok_0.view()),
 //@end
-//@fn file=crates/oxidd-rules-bdd/src/simple/apply_rec.rs path=fn:apply_bin nodecr expect=R5:1 props=C02,C06
+//@fn file=crates/oxidd-rules-bdd/src/simple/apply_rec.rs path=fn:apply_bin nodecr props=C02,C06
 //@spec
     requires is_bin(OP), edge_ok::<M::Edge>(), ok(f.view(), manager.num_levels_spec()), ok(g.view(), manager.num_levels_spec()),
     ensures res is Ok ==> bin_post(OP, f.view(), g.view(), manager.num_levels_spec(), res->Ok_0.view()),
 //@end
-//@fn file=crates/oxidd-rules-bdd/src/simple/apply_rec.rs path=fn:apply_ite nodecr expect=R5:1 props=C02,C06
+//@fn file=crates/oxidd-rules-bdd/src/simple/apply_rec.rs path=fn:apply_ite nodecr props=C02,C06
 //@spec
     requires edge_ok::<M::Edge>(), ok(f.view(), manager.num_levels_spec()), ok(g.view(), manager.num_levels_spec()), ok(h.view(), manager.num_levels_spec()),
     ensures res is Ok ==> ite_post(f.view(), g.view(), h.view(), manager.num_levels_spec(), res->Ok_0.view()),
@@ -1155,17 +1155,17 @@ broadcast use {leaf_lemmas, quant_lemmas, quant2_lemmas, restrict_lemmas, subst_
     },
     decreases f.view(), vars.view(),
 //@end
-//@fn file=crates/oxidd-rules-bdd/src/simple/apply_rec.rs path=fn:restrict hoist=inner>restrict__inner,InnerResult>restrict__InnerResult nodecr expect=R5:1 props=C04,C06
+//@fn file=crates/oxidd-rules-bdd/src/simple/apply_rec.rs path=fn:restrict hoist=inner>restrict__inner,InnerResult>restrict__InnerResult nodecr props=C04,C06
 //@spec
     requires edge_ok::<M::Edge>(), ok(f.view(), manager.num_levels_spec()), ok(vars.view(), manager.num_levels_spec()),
     ensures res is Ok ==> restrict_post(f.view(), vars.view(), manager.num_levels_spec(), res->Ok_0.view()),
 //@end
-//@fn file=crates/oxidd-rules-bdd/src/simple/apply_rec.rs path=fn:quant nodecr expect=R5:1 props=C04,C06
+//@fn file=crates/oxidd-rules-bdd/src/simple/apply_rec.rs path=fn:quant nodecr props=C04,C06
 //@spec
     requires is_q(Q), edge_ok::<M::Edge>(), ok(f.view(), manager.num_levels_spec()), ok(vars.view(), manager.num_levels_spec()),
     ensures res is Ok ==> quant_post(Q, f.view(), vars.view(), manager.num_levels_spec(), res->Ok_0.view()),
 //@end
-//@fn file=crates/oxidd-rules-bdd/src/simple/apply_rec.rs path=fn:apply_quant nodecr expect=R5:1,R12:1 props=C04,C06 cases=Q:BDDOp::And~as~u8,BDDOp::Or~as~u8,BDDOp::Xor~as~u8
+//@fn file=crates/oxidd-rules-bdd/src/simple/apply_rec.rs path=fn:apply_quant nodecr props=C04,C06 cases=Q:BDDOp::And~as~u8,BDDOp::Or~as~u8,BDDOp::Xor~as~u8
 //@spec
     requires is_q(Q), is_bin(OP), edge_ok::<M::Edge>(), ok(f.view(), manager.num_levels_spec()), ok(g.view(), manager.num_levels_spec()), ok(vars.view(), manager.num_levels_spec()),
     ensures res is Ok ==> apply_quant_post(Q, OP, f.view(), g.view(), vars.view(), manager.num_levels_spec(), res->Ok_0.view()),
@@ -1175,7 +1175,7 @@ broadcast use {leaf_lemmas, quant_lemmas, quant2_lemmas, restrict_lemmas, subst_
     requires is_q(Q), edge_ok::<M::Edge>(), ok(f.view(), manager.num_levels_spec()), ok(g.view(), manager.num_levels_spec()), ok(vars.view(), manager.num_levels_spec()),
     ensures res is Ok ==> apply_quant_post(Q, bo_code(op), f.view(), g.view(), vars.view(), manager.num_levels_spec(), res->Ok_0.view()),
 //@end
-//@fn file=crates/oxidd-rules-bdd/src/simple/apply_rec.rs path=fn:substitute nodecr expect=R5:1,R11:1 props=C04,C06
+//@fn file=crates/oxidd-rules-bdd/src/simple/apply_rec.rs path=fn:substitute nodecr props=C04,C06
 //@spec
     requires edge_ok::<M::Edge>(), ok(f.view(), manager.num_levels_spec()), all_ok(subst@, manager.num_levels_spec()),
         eviews(subst@) == subst_of(cache_id),
@@ -1268,7 +1268,7 @@ impl<N: SatCountNumber, S> SatCountCache<N, S> {
         cache_valid(final(self), pow2(vars as nat)), cache_inv(final(self), manager),
 //@end
 }
-//@fn file=crates/oxidd-rules-bdd/src/simple/apply_rec.rs path=impl:BooleanFunction~for~BDDFunction<F>/fn:sat_count_edge/fn:inner rename=sat_count_edge__inner expect=R13:1 props=C12
+//@fn file=crates/oxidd-rules-bdd/src/simple/apply_rec.rs path=impl:BooleanFunction~for~BDDFunction<F>/fn:sat_count_edge/fn:inner rename=sat_count_edge__inner props=C12
 //@header
 fn sat_count_edge__inner<M: Manager<Terminal = BDDTerminal>, N: SatCountNumber, S>(manager: &M, e: Borrowed<M::Edge>, terminal_val: &N, cache: &mut SatCountCache<N, S>) -> (res: N)
 //@spec
